@@ -19,7 +19,7 @@ def run_property(prop: str, tier: str = "quick", seed: int = 0, overlay=None, wr
     """One property on one tree.  When private names of the reference tree are missing and sa/names.py proposes a consistent rename, the
     analysis may be run under up to three alpha-equivalent namings (all proposed renames undone / only attribute renames undone / the
     names as they are): the obligations are about the program, not its spelling, so a run that discharges all of them under one naming
-    has decided the property.  If none does, the run with the fewest findings is the one reported."""
+    has decided the property.  If none does, a run with findings is preferred to a refusal, and among those the one with the fewest findings."""
     import contextlib
     import io
     buf = io.StringIO()
@@ -38,7 +38,9 @@ def run_property(prop: str, tier: str = "quick", seed: int = 0, overlay=None, wr
         tried[mode] = (r, buf.getvalue())
         if r == 0:
             break
-    best = min(tried, key=lambda m: (tried[m][0] != 0, tried[m][1].count("VIOLATION property="), tried[m][0] == 2, list(tried).index(m)))
+    # no naming discharges everything: a run that found its anchors and reports findings says more than one that was refused for a missing
+    # anchor (on every refactoring seen so far a spurious finding under a wrong mapping came with a clean alternative naming)
+    best = min(tried, key=lambda m: (tried[m][0] != 0, tried[m][0] == 2, tried[m][1].count("  C"), list(tried).index(m)))
     if best == "auto" or not write:
         sys.stdout.write(tried[best][1])
         sys.stdout.flush()
